@@ -24,6 +24,7 @@ EXPLANATION = (
     "trusted-for-safety set only under a test implying coverage == 1 (with partial coverage they need not be in a solution), and the caller's "
     "ignore / constraint / start-end lists are never written; (R7) for node-weighted input the constraint / start / end translators are total "
     "(no element of the user's list is dropped on a non-raising path) and follow the expansion scheme. "
+    "(R5, extended) the body of graphutils.max_occurrence counts a constraint edge iff it is a consecutive node pair of the path, weighted by its length; the greedy test compares like with like (edge counts against len*coverage, lengths against total length*coverage).  "
     "NOT decided: that the optimum is taken over exactly the constrained solutions; 'and nothing else' for ignored elements."
 )
 DECIDED = ["constraint families present and complete", "ignoring is the only way an edge is skipped", "scale 0 implies ignored",
